@@ -35,6 +35,26 @@ extern void initPTS(unsigned);
 
 using galois::substrate::ThreadPool;
 
+#ifdef GALOIS_VERIF
+// verification hooks (off unless GALOIS_VERIF is defined): tell the schedule
+// controller, if one is linked in, when a pool thread enters/leaves work()
+extern "C" void galois_verif_thread_begin(unsigned) __attribute__((weak));
+extern "C" void galois_verif_thread_end(unsigned) __attribute__((weak));
+namespace {
+struct VerifWorkScope {
+  unsigned tid;
+  explicit VerifWorkScope(unsigned t) : tid(t) {
+    if (galois_verif_thread_begin)
+      galois_verif_thread_begin(tid);
+  }
+  ~VerifWorkScope() {
+    if (galois_verif_thread_end)
+      galois_verif_thread_end(tid);
+  }
+};
+} // namespace
+#endif
+
 thread_local ThreadPool::per_signal ThreadPool::my_box;
 
 ThreadPool::ThreadPool()
@@ -137,6 +157,9 @@ void ThreadPool::threadLoop(unsigned tid) {
     me.wait(fastmode);
     cascade(fastmode);
     try {
+#ifdef GALOIS_VERIF
+      VerifWorkScope verifScope(tid);
+#endif
       work();
     } catch (const shutdown_ty&) {
       return;
@@ -216,6 +239,9 @@ void ThreadPool::runInternal(unsigned num) {
   cascade(masterFastmode);
   // Do master thread work
   try {
+#ifdef GALOIS_VERIF
+    VerifWorkScope verifScope(0);
+#endif
     work();
   } catch (const shutdown_ty&) {
     return;
